@@ -554,7 +554,7 @@ func runCheck(spec *CheckSpec, tier string) int {
 		var picks []int
 		step := 1 + len(results)/spec.Differential
 		for i := 0; i < len(results) && len(picks) < spec.Differential; i += step {
-			if results[i] != nil && results[i].Sample != "" {
+			if results[i] != nil && results[i].Sample != "" && !jobs[i].EngineReplay {
 				picks = append(picks, i)
 			}
 		}
@@ -597,13 +597,14 @@ func runCheck(spec *CheckSpec, tier string) int {
 		}
 		seen[key]++
 		var o replayOutcome
-		if spec.Replay == "engine" {
+		engine := spec.Replay == "engine" || rv.job.EngineReplay
+		if engine {
 			o = engineReplay(rv.job, rv.v)
 		} else {
 			o = nb.replay(rv.job.Pkg, rv.job.Harness, rv.job.Params, rv.v.Vector)
 		}
 		ok := o.Status == "assert-failed" || o.Status == "panic" || o.Status == "timeout"
-		if !ok && spec.Replay != "engine" {
+		if !ok && !engine {
 			// float64 / time values are opaque to the solver (uninterpreted formatting): the model's
 			// bit pattern is arbitrary. Retry the replay with a table of concrete boundary values.
 			if alt, o2, hit := retryOpaque(nb, rv.job, rv.v); hit {
@@ -625,7 +626,7 @@ func runCheck(spec *CheckSpec, tier string) int {
 		}
 		rp := filepath.Join(verifDir, "replays", spec.ID, fmt.Sprintf("%s_%d.json", rv.job.Harness, len(conf)))
 		rb, _ := json.MarshalIndent(map[string]interface{}{"property": spec.ID, "pkg": rv.job.Pkg, "harness": rv.job.Harness, "params": rv.job.Params,
-			"vector": rv.v.Vector, "names": rv.v.Names, "kind": rv.v.Kind, "msg": rv.v.Msg, "class": rv.v.Class, "notes": rv.v.Notes, "replay_status": o.Status, "replay_detail": o.Detail, "mode": spec.Replay}, "", " ")
+			"vector": rv.v.Vector, "names": rv.v.Names, "kind": rv.v.Kind, "msg": rv.v.Msg, "class": rv.v.Class, "notes": rv.v.Notes, "replay_status": o.Status, "replay_detail": o.Detail, "mode": map[bool]string{true: "engine", false: "native"}[engine]}, "", " ")
 		os.WriteFile(rp, rb, 0644)
 		c.Replay = rp
 		conf = append(conf, c)
